@@ -68,6 +68,58 @@ pub fn add_kl(s: &[u8; 32], k: u32) -> Option<[u8; 32]> {
     }
 }
 
+/// boundary family for scalars: base + 2^k - e (mod 2^256) with base in {0, L, 2^252, 2L, 8L}, k in 0..=255,
+/// e in {0, 1, 2}. The group order is 2^252 + c with c < 2^125, so limbs 2..3 (bits 125..251) of L are zero:
+/// comparisons and borrows that mishandle that zero region only show for values like L + 2^200 or 2^252 + 2^240.
+pub fn boundary_scalar(sel: u64) -> [u8; 32] {
+    let base_sel = sel % 5;
+    let k = ((sel / 5) % 256) as usize;
+    let e = ((sel / (5 * 256)) % 3) as u8;
+    let mut v: [u8; 33] = [0; 33];
+    match base_sel {
+        0 => {}
+        1 => v[..32].copy_from_slice(&L),
+        2 => v[31] = 0x10,
+        3 => v[..32].copy_from_slice(&add_kl(&[0u8; 32], 2).unwrap()),
+        _ => v[..32].copy_from_slice(&add_kl(&[0u8; 32], 8).unwrap()),
+    }
+    // + 2^k
+    let mut carry = 1u16 << (k % 8);
+    let mut i = k / 8;
+    while carry != 0 && i < 33 {
+        let t = v[i] as u16 + carry;
+        v[i] = t as u8;
+        carry = t >> 8;
+        i += 1;
+    }
+    // - e
+    let mut borrow = e as i16;
+    let mut i = 0;
+    while borrow != 0 && i < 33 {
+        let t = v[i] as i16 - borrow;
+        if t < 0 {
+            v[i] = (t + 256) as u8;
+            borrow = 1;
+        } else {
+            v[i] = t as u8;
+            borrow = 0;
+        }
+        i += 1;
+    }
+    let mut out = [0u8; 32];
+    out.copy_from_slice(&v[..32]);
+    out
+}
+
+pub fn lt_l(s: &[u8; 32]) -> bool {
+    for i in (0..32).rev() {
+        if s[i] != L[i] {
+            return s[i] < L[i];
+        }
+    }
+    false
+}
+
 #[cfg(test)]
 mod tests {
     use super::*;
